@@ -300,6 +300,11 @@ fn part_flips(bytes: &[u8], stats: &mut Stats) -> Verdict {
             }
         }
         stats.sample(|| json!({"fen": p.fen4(), "flip": what}));
+        // the hash is a function of the board: the original board hashed again, right after a
+        // look-alike, still has its original hash (under every key draw)
+        if hashes(&b0) != h0 {
+            return Err(Failure::new("same-position-different-hash", json!({"how": "the same board hashed again after other boards", "fen": p.fen(0,1), "hashed_in_between": what})));
+        }
     }
     Ok(())
 }
